@@ -10,10 +10,11 @@ sys.path.insert(0, ROOT)
 base = json.load(open("/root/.vp/BASELINE.json"))
 props = [json.loads(l) for l in open(os.path.join(ROOT, "properties.jsonl"))]
 checks, na = [], []
+claimed = set(open(os.path.join(ROOT, "props", "CLAIMED")).read().split())
 for p in props:
     pid = p["id"]
     mp = os.path.join(ROOT, "props", pid.lower() + ".py")
-    if not os.path.exists(mp):
+    if pid not in claimed or not os.path.exists(mp):
         na.append({"property_id": pid, "reason": "check not built yet in this round (planned in DESIGN.md section 5; the technique applies)"})
         continue
     m = importlib.import_module("props." + pid.lower())
